@@ -66,6 +66,70 @@ class Coverage:
         return {"functions": sorted(self.functions), "lines": {k: sorted(v) for k, v in self.lines.items()}}
 
 
+class StepBudgetExceeded(Exception):
+    """Raised *inside* repository code by the step monitor."""
+
+
+class StepBudget:
+    """PEP 669 monitor counting backward jumps (loop iterations) executed in the
+    hand-written modules of the package since the last reset.  A `while` loop
+    that no longer advances would otherwise only show up as a worker running into
+    the wall-clock watchdog (inconclusive); a budget in logical steps turns it
+    into an exception raised in the looping code - deterministic, independent of
+    machine load - which the checks then report like any other unexpected
+    exception.  The budget (5 million iterations between two cases) is fifty times
+    the largest count observed for a generated case
+    (the evidence reports that maximum)."""
+
+    TOOL = 4
+    BUDGET = 5_000_000
+
+    def __init__(self):
+        self.n = 0
+        self.max_seen = 0
+        self.on = False
+
+    def reset(self):
+        if self.n > self.max_seen:
+            self.max_seen = self.n
+        self.n = 0
+
+    def start(self):
+        mon = getattr(sys, "monitoring", None)
+        if mon is None:
+            return
+        try:
+            mon.use_tool_id(self.TOOL, "bbverif-steps")
+        except ValueError:
+            return
+
+        def on_jump(code, offset, dest):
+            if dest > offset:
+                return mon.DISABLE  # forward jump: not an iteration
+            if not _watched(code.co_filename):
+                return mon.DISABLE
+            self.n += 1
+            if self.n > self.BUDGET:
+                self.n = 0
+                raise StepBudgetExceeded("more than %d loop iterations in the package since the case began (last in %s, line %d)"
+                                         % (self.BUDGET, code.co_qualname, code.co_firstlineno))
+
+        mon.register_callback(self.TOOL, mon.events.JUMP, on_jump)
+        mon.set_events(self.TOOL, mon.events.JUMP)
+        self.on = True
+
+    def stop(self):
+        if self.on:
+            mon = sys.monitoring
+            mon.set_events(self.TOOL, 0)
+            mon.free_tool_id(self.TOOL)
+            self.on = False
+            self.reset()
+
+
+STEPS = StepBudget()
+
+
 def _function_lines():
     """{file: {qualname: set(lines)}} for the watched modules of the tree under test."""
     out = {}
